@@ -115,7 +115,7 @@ def eval_coq(ctx, cases, name):
 CODES = {1: "a persisted line's overall status is not Scheduler.Status of its node table",
          2: "the first persisted line is not S0 (all steps not started, written by the main thread)",
          3: "more than two lines by the main thread or more than one by the first-status goroutine",
-         4: "the per-notification snapshots are not a chain of scheduler states",
+         4: "the persisted lines, in file order, are not one chain of scheduler states",
          5: "a persisted line is not a state from which the final state is reachable",
          6: "a live answer does not carry the forced status running",
          7: "the live answers are not a chain of scheduler states",
@@ -200,7 +200,7 @@ def check_crash(ctx, cases, stats):
 
 
 def run(ctx):
-    ctx.proofs(extra=["Status/Check.vo", "Status/ProofsCheck.vo"])
+    ctx.proofs(extra=["Status/Check.vo", "Status/ProofsCheck.vo", "Status/ProofsChain.vo"])
     tool, out, _ = vlib.go_build("status", ctx.scratch)
     if tool is None:
         ctx.fail("correspondence", "harness does not build against /repo", {"log": out[-2000:]})
